@@ -325,3 +325,118 @@ def lifecycle_and_run(seed, on_job=None, mode=None, cfg_override=None, n_prs=Non
     finally:
         world.close()
     return {'cfg': cfg, 'events': events, 'seed': seed, 'family': 'lifecycle'}, log
+
+
+def branch_jobs_and_run(seed, on_job=None, mode=None, cfg_override=None, fault_for=None):
+    """Admin-job family: on a cascade whose branches have diverged (a pull request merged first), a series of
+    create-branch jobs with every kind of branching point (automatic, each existing destination branch, a commit
+    of a feature branch) and a few delete-branch / queue jobs."""
+    rng = random.Random(seed * 104729 + 7)
+    cfg = gen_cfg(rng, mode)
+    cfg.update({'peers': 0, 'leaders': 0, 'need_author': False, 'build_key': ''})
+    if cfg_override:
+        cfg.update(cfg_override)
+    world = sysworld.World(cfg)
+    events, log = [], []
+
+    def do(ev):
+        events.append(ev)
+        sub = run_history(world, [ev], on_job=on_job, fault_for=fault_for)
+        log.extend(sub)
+        return sub[0]
+    try:
+        gen = Gen(rng, cfg)
+        # make the destination branches differ from each other: merge one pull request on the oldest one
+        ev = gen.new_pr()
+        ev['dst'] = gen.dests[0]
+        gen.prs[-1]['dst'] = ev['dst']
+        r = do(ev)
+        gen.prs[-1]['id'] = r.get('res', {}).get('pr')
+        for _ in range(3):
+            do({'e': 'job_pr', 'pr': gen.prs[-1]['id']})
+            q = sorted(n for n in world.refs() if n.startswith('q/w/'))
+            if q:
+                do({'e': 'job_commit', 'ref': q[-1]})
+        ev = gen.new_pr()
+        r = do(ev)
+        gen.prs[-1]['id'] = r.get('res', {}).get('pr')
+        for _ in range(rng.choice([5, 7, 9])):
+            refs = world.refs()
+            job = gen.branch_job(refs)
+            if job['kind'] == 'create_branch' and rng.random() < 0.75:
+                dests = sorted(n for n in refs if n.startswith('development/') or n.startswith('stabilization/'))
+                pick = rng.random()
+                if pick < 0.7 and dests:
+                    job['args']['branch_from'] = rng.choice(dests)
+                elif pick < 0.85:
+                    job['args']['branch_from'] = refs[gen.prs[-1]['src']][:12] if gen.prs[-1]['src'] in refs else ''
+                else:
+                    job['args'].pop('branch_from', None)
+            do(job)
+            if rng.random() < 0.25 and cfg['use_queue']:
+                do({'e': 'job_api', 'kind': rng.choice(['rebuild_queues', 'delete_queues'])})
+    finally:
+        world.close()
+    return {'cfg': cfg, 'events': events, 'seed': seed, 'family': 'branch_jobs'}, log
+
+
+def conflict_and_run(seed, on_job=None, mode=None, cfg_override=None, fault_for=None):
+    """Forward-port conflict family: a pull request changes the file every destination branch rewrites, so each
+    integration branch beyond the first conflicts; the author resolves on the w/ branches as instructed; another
+    pull request is merged in between so that the first target is not a fast-forward."""
+    rng = random.Random(seed * 15485863 + 3)
+    cfg = gen_cfg(rng, mode)
+    if len(dest_names(cfg['layout'])[0]) < 2:
+        cfg['layout'] = rng.choice([l for l in LAYOUTS if len(dest_names(l)[0]) >= 2])
+    cfg.update({'peers': 0, 'leaders': 0, 'need_author': False, 'build_key': 'pre-merge'})
+    if cfg_override:
+        cfg.update(cfg_override)
+    world = sysworld.World(cfg)
+    events, log = [], []
+
+    def do(ev):
+        events.append(ev)
+        sub = run_history(world, [ev], on_job=on_job, fault_for=fault_for)
+        log.extend(sub)
+        return sub[0]
+    try:
+        gen = Gen(rng, cfg)
+        ev = gen.new_pr()
+        ev['dst'] = gen.dests[0] if rng.random() < 0.7 else rng.choice(gen.dests[:-1])
+        ev['file'], ev['content'] = 'conf', 'conf changed by the pull request\n'
+        gen.prs[-1]['dst'] = ev['dst']
+        p1 = gen.prs[-1]
+        p1['id'] = do(ev).get('res', {}).get('pr')
+        other = gen.new_pr()
+        other['dst'] = p1['dst']
+        gen.prs[-1]['dst'] = other['dst']
+        p2 = gen.prs[-1]
+        p2['id'] = do(other).get('res', {}).get('pr')
+        order = [p2, p1] if rng.random() < 0.7 else [p1, p2]
+        for rounds in range(3):
+            for p in order:
+                if p['id'] is None:
+                    continue
+                st = do({'e': 'job_pr', 'pr': p['id']}).get('status')
+                if st == 'Conflict' and p is p1:
+                    targets = gen.targets_of(p)
+                    prev = p['src']
+                    for t in targets[1:]:
+                        wn = 'w/%s/%s' % (t.split('/', 1)[1], p['src'])
+                        do({'e': 'resolve', 'w': wn, 'dst': t, 'from': prev, 'label': 'res%d' % len(events),
+                            'side': rng.choice(['theirs', 'ours'])})
+                        prev = wn
+                        if rng.random() < 0.3:
+                            break
+                    do({'e': 'job_pr', 'pr': p['id']})
+                for nme in gen.tips_of(p, world.refs()):
+                    do({'e': 'build', 'ref': nme, 'state': 'SUCCESSFUL' if rng.random() < 0.9 else 'FAILED'})
+                do({'e': 'job_pr', 'pr': p['id']})
+                q = sorted(n for n in world.refs() if n.startswith('q/w/'))
+                for nme in q:
+                    do({'e': 'build', 'ref': nme, 'state': 'SUCCESSFUL' if rng.random() < 0.9 else 'FAILED'})
+                if q:
+                    do({'e': 'job_commit', 'ref': rng.choice(q)})
+    finally:
+        world.close()
+    return {'cfg': cfg, 'events': events, 'seed': seed, 'family': 'conflict'}, log
